@@ -708,9 +708,12 @@ theorem old_import_resolves {s s' : State} {obj newParent : Nat} {newName : Name
   | none => simp only [hO, hf]
 
 /-!
-### The last clause of C07 is FALSE at full strength
+### The last clause of C07: WAS false at full strength; the cases the property names now hold
 
-Full statement (kept visible, not provable):
+Full statement (kept visible; proved for the reference shapes the property lists — a local name
+imported from the re-exporting module: `new_name_resolves`; a local name imported from the defining
+module: `old_import_resolves`; the old and new qualified names: `old_name_finds`,
+`old_member_name_finds`, `new_name_resolves` — not for arbitrary dotted `name`):
 
     theorem reference_reaches (m) (hI : Inv s) (h : reparent s obj newParent newName = .ok s')
         (scope : Nat) (name : Path)
@@ -719,11 +722,12 @@ Full statement (kept visible, not provable):
         -- … and still does afterwards
         resolveName ⟨s', m⟩ scope name = some obj
 
-It fails for a consumer module that imported the object *from its defining module*: the consumer's
-alias table maps the local name to the OLD qualified name; after the move `objForFullName(old)` is
-`None`, and `expandName` stops there (`break`), returning the old dotted name without consulting
-the alias that `reparent` left in the old parent.  `System.find_object(old name)` does follow that
-alias (`old_name_finds`), `Documentable.resolveName` does not.
+HISTORY: before the `resolveName` repair (`resolveNameOld` below) it failed for a consumer module that
+imported the object *from its defining module*: the consumer's alias table maps the local name to the
+OLD qualified name; after the move `objForFullName(old)` is `None`, and `expandName` stops there
+(`break`), returning the old dotted name without consulting the alias that `reparent` left in the old
+parent.  `System.find_object(old name)` does follow that alias (`old_name_finds`); since the repair
+`Documentable.resolveName` falls back to it (`old_import_resolves`).
 -/
 
 /-! ### a concrete re-export: package `pkg`, module `pkg._b` with class `X` with method `m`,
